@@ -58,7 +58,7 @@ def main():
             "guard": "verif-hooks",
             "enable": "cargo feature: the harness depends on aidl-parser = { path = \"/repo\", features = [\"verif-hooks\"] }",
             "baseline_off_cmd": "cd /repo && cargo test --workspace --no-fail-fast --offline",
-            "source_commits": ["7e7e7a7"],
+            "source_commits": ["7e7e7a7", "0aff3c1"],
             "add_only": True,
         },
         "engines": [
